@@ -23,6 +23,7 @@ fn main() {
                 let p = |i: usize| args[i].parse::<u64>().unwrap();
                 sim::run_walk(p(2), p(3) as usize, p(4) as i64, p(5) as usize, p(6) == 1, &args[7]).await
             }
+            "sim-replay" => sim::run_replay(&args[2], &args[3]).await,
             "replay-members" => members::run(&args[2]),
             "replay-chunker" => chunker::run_chunker(&args[2]),
             "replay-chunkrange" => chunker::run_chunkrange(&args[2]),
